@@ -18,11 +18,11 @@ RULE = (
     "connected before its Logon, initiator after sending Logon, the same three states on the second connection of an object that "
     "already had a session (the client having been logged on by the peer first), ACTIVE x2 roles, RESENDREQ_AWAITING x2 roles} x inbound class in "
     "{Logon, Logout, Heartbeat, TestRequest, ResendRequest, GapFill, Reset, Reject, application} x defect in {none, wrong "
-    "BeginString (FIX.4.2, FIX.4.4x, FIX.4.40, FIX.4.4.1, FIX.5.0, FIXT.1.1), SenderCompID missing / wrong, TargetCompID missing / wrong, CompIDs swapped, MsgSeqNum missing, number below / "
+    "BeginString (FIX.4.2, FIX.4.4x, FIX.4.40, FIX.4.4.1, FIX.5.0, FIXT.1.1), SenderCompID missing / wrong / padded with a blank / other case / one character longer, TargetCompID missing / wrong / padded with a tab / one character shorter, CompIDs swapped, MsgSeqNum missing, number below / "
     "at / above the expected one}; then send attempts of every message class (application, Heartbeat, TestRequest, Logon, Logout, "
     "ResendRequest, Reject, SequenceReset), also in the three disconnected states; after every disconnect Hypothesis-drawn further "
     "input (valid frames, garbage, EOF) and virtual time. Oracle: pre-logon a non-Logon frame is never delivered nor acted upon and "
-    "drops the connection; refused sends raise FIXConnectionError, write nothing, consume no number, leave no journal row; wrong "
+    "drops the connection (a Logout as the first frame of a connection produces no callback other than the disconnect); refused sends raise FIXConnectionError, write nothing, consume no number, leave no journal row; wrong "
     "BeginString frames have no effect; CompID / MsgSeqNum defects never reach on_message, never advance next_num_in, leave the "
     "endpoint disconnected (with a Logout carrying Text when the CompIDs were right); a disconnect is reported exactly once and "
     "nothing is emitted or called back afterwards. Non-trivial = defect != none or pre-logon state; the product is enumerated completely."
@@ -40,7 +40,7 @@ STATES = ["acc-connected", "init-connected", "init-logon-sent", "acc-active", "i
           # Logout stating a reason (too-low MsgSeqNum)
           "acc2-active", "init2-active"]
 CLASSES = ["A", "5", "0", "1", "2", "GF", "RS", "3", "D"]
-DEFECTS = ["none", "begin", "begin:FIX.4.4x", "begin:FIX.4.40", "begin:FIX.4.4.1", "begin:FIX.5.0", "begin:FIXT.1.1", "sender-missing", "sender-wrong", "target-missing", "target-wrong", "swapped", "seq-missing", "seq-low", "seq-at", "seq-high"]
+DEFECTS = ["none", "begin", "begin:FIX.4.4x", "begin:FIX.4.40", "begin:FIX.4.4.1", "begin:FIX.5.0", "begin:FIXT.1.1", "sender-missing", "sender-wrong", "sender-padded", "sender-case", "sender-longer", "target-missing", "target-wrong", "target-padded", "target-prefix", "swapped", "seq-missing", "seq-low", "seq-at", "seq-high"]
 SENDS = ["D", "0", "1", "A", "5", "2", "3", "4"]
 PRE = {"acc-connected", "init-connected", "init-logon-sent", "acc2-connected", "init2-connected", "init2-logon-sent"}
 
@@ -152,6 +152,16 @@ def build_frame(b, cls, defect, E, uid):
         hdr = [h for h in hdr if h[0] != 49]
     elif defect == "sender-wrong":
         hdr[0] = (49, "EVIL")
+    elif defect == "sender-padded":
+        hdr[0] = (49, sender + " ")
+    elif defect == "sender-case":
+        hdr[0] = (49, sender.swapcase())
+    elif defect == "sender-longer":
+        hdr[0] = (49, sender + "2")
+    elif defect == "target-padded":
+        hdr[1] = (56, "\t" + target)
+    elif defect == "target-prefix":
+        hdr[1] = (56, target[:-1])
     elif defect == "target-missing":
         hdr = [h for h in hdr if h[0] != 56]
     elif defect == "target-wrong":
@@ -277,7 +287,7 @@ def one_case(acc, state, cls, defect, extra=(), uid=1):
         evs = [e[0] for e in b.events()]
         disc_now = b.disconnected()
         seqreset = cls in ("GF", "RS")
-        compid_defect = defect in ("sender-missing", "sender-wrong", "target-missing", "target-wrong", "swapped")
+        compid_defect = defect in ("sender-missing", "sender-wrong", "target-missing", "target-wrong", "swapped") or defect.split("-")[-1] in ("padded", "case", "longer", "prefix")
 
         def expect_dropped(reason, logout_required):
             if s1["msgs"] != s0["msgs"]:
@@ -306,6 +316,10 @@ def one_case(acc, state, cls, defect, extra=(), uid=1):
             if cls == "5":
                 if s1["msgs"] != s0["msgs"] or "logon" in evs:
                     bad("delivered/pre-logon-logout", "callbacks for a Logout before the session was established")
+                # a Logout answering our own Logon (initiator, Logon sent) is the counterparty's refusal and may be reported; a Logout
+                # as the very first frame on a connection that has not sent anything is "a first inbound message other than Logon"
+                if state in ("acc-connected", "acc2-connected", "init-connected", "init2-connected") and [e for e in evs if e not in ("disconnect", "state")]:
+                    bad("callback/pre-logon-logout-first-frame", f"callbacks {evs} for a Logout that is the first frame of the connection")
             else:
                 expect_dropped("pre-logon", False)
         elif pre and cls == "A":
